@@ -400,6 +400,7 @@ func (e *Exec) cutLoop(fr *Frame, li *loopInfo, st *State) *State {
 			e.bumpTop(st)
 		}
 	}
+	e.loopTop = st.top
 	_ = pre
 	if len(located) > 0 {
 		if e.loopFrames == nil {
